@@ -863,6 +863,26 @@ example : exSysR.s.locks[0]? = some false ∧ exSysR.s.locks[1]? = some false
     ∧ sysStep exSysR (.start { t := 3, e := 3 }) = .ok (exRAt 1)
     ∧ (exRAt 1).jobs.map (fun j => j.picked.length) = [2] := by decide +kernel
 
+
+/-- **the record the restart file is written from lists exactly the jobs in flight** — at every
+    instant of every history from a fresh start or a restart (with an empty record at its start):
+    `locked` is a permutation of the (ens_nums, path numbers) of the jobs in flight.  (The
+    pop-while-iterating loop of `treat_output` removes exactly the completed job's entry because path
+    numbers of jobs in flight are pairwise distinct; `pick` and the re-issue branch append the new
+    job's entry.) -/
+theorem locked_record_matches_inflight (y0 y : Sys) (evs : List Ev) (h0 : Start y0)
+    (hl : y0.s.locked = []) (hj : y0.jobs = []) (hr : run y0 evs = .ok y) :
+    y.s.locked.Perm (y.jobs.map (fun j => (j.picked.map (·.ens), j.picked.map (·.pn)))) := by
+  have hrec0 : RecInv y0 := by
+    unfold RecInv
+    rw [hl, hj]
+    exact List.Perm.refl _
+  exact run_recInv evs h0.inv hrec0 hr
+
+example : (exRAt 2).s.locked = [([-1, 0], [0, 1]), ([1], [2])]
+    ∧ (exRAt 2).jobs.map (fun j => (j.picked.map (·.ens), j.picked.map (·.pn))) = [([-1, 0], [0, 1]), ([1], [2])]
+    ∧ (exRAt 4).s.locked = [([1], [2]), ([-1], [3])] := by decide +kernel
+
 /-! ## 8. Engine instances are separate objects
 
 The model's engine instance is the pair (engine type, index).  `create_engines` builds, per engine
